@@ -209,6 +209,14 @@ func checkC02(p *Prog, res *Result, tier string) {
 
 	// ---- R6: hand-over (C15-R1) ----
 	checkLeaderStart(p, r, res, "C02-R6")
+	// .. from a timestamp that was really read: a failed oracle read fails the lock operation (C15-R5)
+	{
+		sub15 := newResult("C15")
+		checkOracleErrorPreserved(p, r, sub15, "C15-R5")
+		for _, o := range sub15.Obls {
+			res.add("C02-R6", o.Rule+" "+o.Construct, o.Status, o.Pos, o.Detail)
+		}
+	}
 }
 
 // isAllocated: v is the allocated-revision result of an allocation site, possibly through parameters (all call sites).
